@@ -39,6 +39,7 @@
 #include <limits.h>
 #include <sys/syscall.h>
 #include <fcntl.h>
+#include <execinfo.h>
 #include "rculfhash-internal.h"
 #include "lfht_life_ga.h"
 #include "lfht_life_core.h"
@@ -52,6 +53,7 @@ static int rc_upd_inf, rc_res_inf;
 
 extern unsigned int vp_tun_count_commit_order, vp_tun_min_part_order;
 
+static pthread_t g_main_tid;
 static long opt_rounds, opt_cont, opt_upd, opt_resident, opt_walk, opt_res, opt_cont_ops, opt_upd_ops, opt_res_calls,
 	opt_mm, opt_ak, opt_flags, opt_max_order, opt_pop_hi, opt_sig, opt_stall_ms;
 static double opt_hook_prob;
@@ -569,14 +571,18 @@ static void run_round(struct vp_rng *r)
 	VP_STORE(mt->in_call, CALL_JOIN);
 	for (int i = 0; i < n; i++) {
 		int inf = T[i].role == R_RESIDENT || T[i].role == R_WALK || (T[i].role == R_UPD && UPD_INF) || (T[i].role == R_RES && RES_INF);
-		if (!inf)
+		if (!inf) {
 			pthread_join(T[i].tid, NULL);
+			VP_STORE(T[i].started, 0);
+		}
 	}
 	VP_STORE(g_stop_inf, 1);
 	for (int i = 0; i < n; i++) {
 		int inf = T[i].role == R_RESIDENT || T[i].role == R_WALK || (T[i].role == R_UPD && UPD_INF) || (T[i].role == R_RES && RES_INF);
-		if (inf)
+		if (inf) {
 			pthread_join(T[i].tid, NULL);
+			VP_STORE(T[i].started, 0);
+		}
 	}
 	VP_STORE(mt->in_call, CALL_NONE);
 	for (int i = 0; i < n; i++) {
@@ -631,8 +637,45 @@ static int read_proc(int tid, const char *file, char *buf, size_t len)
 	return (int) n;
 }
 
+/* stuck-state witness: every harness thread prints its own stack (binary+offset, for addr2line) */
+static void bt_handler(int sig)
+{
+	void *pc[24];
+	char hdr[96];
+	(void) sig;
+	int n = backtrace(pc, 24);
+	int l = snprintf(hdr, sizeof(hdr), "--- stack of thread idx=%d role=%d in_call=%d\n", me ? me->idx : -1, me ? (int) me->role : -1,
+			 me ? me->in_call : -1);
+	if (write(2, hdr, (size_t) l) < 0)
+		return;
+	backtrace_symbols_fd(pc, n, 2);
+}
+
+static void dump_thread_stacks(void)
+{
+	struct sigaction sa;
+	memset(&sa, 0, sizeof(sa));
+	sa.sa_handler = bt_handler;
+	sa.sa_flags = SA_RESTART;
+	sigaction(SIGUSR1, &sa, NULL);
+	for (int i = 0; i < MAXT; i++)
+		if (i == MAIN_T || (i < g_nthr && VP_LOAD(T[i].started))) {
+			pthread_t tid = i == MAIN_T ? g_main_tid : T[i].tid;
+			if (pthread_kill(tid, SIGUSR1) == 0)
+				usleep(20000);
+		}
+}
+
 static int confirm_stuck(char *buf, size_t len)
 {
+	dump_thread_stacks();
+	if (getenv("LFHT_LIFE_GDB")) {
+		/* debugging aid: full stacks of every thread (library threads included) */
+		char cmd[200];
+		snprintf(cmd, sizeof(cmd), "gdb -p %d -batch -ex 'thread apply all bt 16' 2>&1 | grep -v '^\\[New' 1>&2", (int) getpid());
+		if (system(cmd) < 0)
+			perror("gdb");
+	}
 	int call = CALL_NONE, who = -1, resizer = -1;
 	for (int i = 0; i < MAXT; i++) {
 		int c = VP_LOAD(T[i].in_call);
@@ -740,6 +783,7 @@ int main(int argc, char **argv)
 	mt->batch_lim = 64;
 	vp_rng_init(&mt->rng, vp_opt.seed, 0x3a19, 0);
 	me = mt;
+	g_main_tid = pthread_self();
 	vp_pin(MAXT);
 	rcu_register_thread();
 	vp_rcu_offline();
